@@ -73,6 +73,8 @@ def _rendering(kind, n=MAX_ITEMS):
         "connect": st.lists(st.sampled_from(CONNECT), min_size=n, max_size=n),
         "repeat_item": st.lists(st.sampled_from([None] * (2 * len(rep)) + rep), min_size=n, max_size=n),
         "repeat_thru": st.lists(st.sampled_from([None] * (3 * len(rep)) + rep), min_size=n, max_size=n),
+        # single-digit numbers written with a leading zero ('Sec 01', 'Lot 07')
+        "zpad": st.lists(st.sampled_from([False] * 7 + [True]), min_size=n, max_size=n),
     })
 
 
@@ -80,7 +82,7 @@ def _trim(t):
     items, r = t
     n = len(items)
     r = dict(r)
-    for k in ("through", "connect", "repeat_item", "repeat_thru"):
+    for k in ("through", "connect", "repeat_item", "repeat_thru", "zpad"):
         r[k] = r[k][:n]
     return {"items": items, "r": r}
 
@@ -98,6 +100,11 @@ def long_rendered_list(kind, max_num, sizes=(7, 10, 16, 24, 25, 26, 30, 36, 40))
     return st.tuples(model, _rendering(kind, top)).map(_trim)
 
 
+def _num(n, r, i):
+    z = r.get("zpad")
+    return str(n).zfill(2) if z and i < len(z) and z[i] else str(n)
+
+
 def render(items, r, acres=None):
     """acres: optional {str(item index): '(38.29)'} attached to single-number items."""
     acres = acres or {}
@@ -111,15 +118,15 @@ def render(items, r, acres=None):
             if kw:
                 out += kw + " "
         if it[0] == "single":
-            out += str(it[1]) + acres.get(str(i), "")
+            out += _num(it[1], r, i) + acres.get(str(i), "")
         else:
-            out += str(it[1]) + r["through"][i]
+            out += _num(it[1], r, i) + r["through"][i]
             kw = r["repeat_thru"][i]
             if kw:
                 if not out.endswith(" "):
                     out += " "
                 out += kw + " "
-            out += str(it[2])
+            out += _num(it[2], r, i)
     return out
 
 
